@@ -328,7 +328,30 @@ def refs_in(t, acc=None):
 def refactor(rng, S):
     """returns (kind, cddl text of the refactored schema) or None"""
     rules = list(S.rules)
-    kind = rng.choice(["name-intro", "inline", "parens", "rename", "add-rules", "reorder", "incr-choice", "socket", "generic", "generic-ctl"])
+    kind = rng.choice(["name-intro", "inline", "parens", "rename", "add-rules", "reorder", "incr-choice", "socket", "generic", "generic-ctl", "generic-group"])
+    if kind == "generic-group":
+        # a generic GROUP rule instantiated several times with different arguments in one array vs the hand-substituted entries
+        names = ["tstr", "int", "bool", "uint", "nil"]
+        A, B = rng.sample(names, 2)
+        shape = rng.choice(["pair", "single", "opt"])
+        if shape == "pair":
+            body, subst = "(t, t)", lambda x: [x, x]
+        elif shape == "single":
+            body, subst = "(t)", lambda x: [x]
+        else:
+            body, subst = "(t, ? t)", lambda x: [x, "? " + x]
+        use = [A, B] if rng.random() < 0.7 else [A, B, A]
+        t1 = "r0 = [%s]\n" % ", ".join(", ".join(subst(x)) for x in use)
+        t2 = "r0 = [%s]\np<t> = %s\n" % (", ".join("p<%s>" % x for x in use), body)
+        ents = []
+        for x in use:
+            for y in subst(x):
+                e = ("ent", None, False, ("ref", y.replace("? ", "")))
+                ents.append(("occ", 0, 1, e) if y.startswith("? ") else e)
+        g = ents[-1]
+        for it in reversed(ents[:-1]):
+            g = ("seq", it, g)
+        return kind, (t1, t2, Schema([("r0", "type", ("arr", g))]))
     if kind == "generic-ctl":
         # instantiating a generic rule whose parameter is the TARGET of a control vs substituting by hand:
         #   r0 = b<A>  b<t> = t .op ARG      ==      r0 = (A) .op ARG
@@ -412,6 +435,9 @@ def refactor(rng, S):
         else:
             for a in arms:
                 lines.append("$s-%s /= %s" % (n, ty_cddl(a)))
+            if rng.random() < 0.6:
+                # an unrelated, unreachable PLAIN rule with the same bare name as the socket: `$x` and `x` are different names
+                lines.append("s-%s = %s" % (n, rng.choice(["bool", "nil", "\"plain\"", "[* bool]"])))
         return kind, "\n".join(lines) + "\n"
     if kind == "generic":
         p = rng.choice(paths)
@@ -449,6 +475,13 @@ def run_c08(prop, prop_file, tier, seed):
         if kind == "generic-ctl":
             text1, text2, S = text2
             dd = [("int", x) for x in (0, 3, 5, 6, 7, 10, 15, 20, 25, -1)] + [("txt", "a"), ("txt", "ab"), ("flt", 22)]
+        elif kind == "generic-group":
+            text1, text2, S = text2
+            dd = docs_for(rng, S, False, 4)
+            if dd and dd[0][0] == "arr" and len(dd[0][1]) >= 2:
+                l = dd[0][1]
+                dd.append(("arr", [l[0]] * len(l)))          # every element of the first instantiation's kind
+                dd.append(("arr", [l[-1]] * len(l)))
         else:
             dd = docs_for(rng, S, False, 3)
         for d in dd:
